@@ -3,7 +3,7 @@ package main
 // C19 — a perceptual hash is its defined function of the pixels; wrong sizes
 // and nil are rejected; distances are Hamming distances.
 //
-// Enumerated: a finite image family (4 pixel formats x 4 rectangle placements
+// Enumerated: a finite image family (5 pixel formats (RGBA, NRGBA at alpha 200, Gray, YCbCr 4:4:4, NRGBA with fully transparent pixels) x 4 rectangle placements
 // x ~470 contents per hash size), every size in a window around the required
 // one (each followed by a valid call: history), and all triples of a hash set.
 // Reference: independent float64 separable DCT-II of the documented luminance.
@@ -32,10 +32,11 @@ const (
 	kNRGBA
 	kGray
 	kYCbCr
+	kNRGBAHoles
 	nKinds
 )
 
-var kindName = []string{"RGBA", "NRGBA", "Gray", "YCbCr444"}
+var kindName = []string{"RGBA", "NRGBA", "Gray", "YCbCr444", "NRGBA with fully transparent pixels"}
 
 const nOrigins = 4
 
@@ -174,12 +175,23 @@ func buildImage(kind, origin, n int, c content) image.Image {
 			return m.SubImage(sub)
 		}
 		return m
-	case kNRGBA:
+	case kNRGBA, kNRGBAHoles:
 		m := image.NewNRGBA(r)
 		for Y := r.Min.Y; Y < r.Max.Y; Y++ {
 			for X := r.Min.X; X < r.Max.X; X++ {
 				v, _ := val(X, Y)
-				m.SetNRGBA(X, Y, color.NRGBA{v, 255 - v, v / 2, 200})
+				a := uint8(200)
+				if kind == kNRGBAHoles {
+					a = 255
+					rx, ry := X-r.Min.X, Y-r.Min.Y
+					if origin == 3 {
+						rx, ry = X-8, Y-8
+					}
+					if (rx*3+ry*5)%7 == 0 || v == 0 {
+						a = 0 // fully transparent: luminance 0 whatever the colour
+					}
+				}
+				m.SetNRGBA(X, Y, color.NRGBA{v, 255 - v, v / 2, a})
 			}
 		}
 		if origin == 3 {
@@ -812,11 +824,11 @@ func init() {
 	register(&mc.Check{
 		Property: "C19",
 		Spaces: func(tier string) []mc.Space {
-			allK := []int{kRGBA, kNRGBA, kGray, kYCbCr}
+			allK := []int{kRGBA, kNRGBA, kGray, kYCbCr, kNRGBAHoles}
 			allO := []int{0, 1, 2, 3}
 			sp := []mc.Space{
 				{Name: "family-64", H: c19Family(0, allK, allO), NoLevels: true, Isolate: true, SplitDepth: 1,
-					Rule: "64x64 images: 4 pixel formats x 4 rectangle placements x the content family (constants, every low-frequency cosine basis image at two amplitudes and rectified on black, two-basis sums, ramps, checkerboards, single bright/dark pixels on a grid, fixed noise); both implementations vs an independent float64 DCT-II of the documented luminance, margins 1e-11*L1 / 4e-5*L1 (+ measured conversion distance); repeated and pool-poisoned calls; placement invariance"},
+					Rule: "64x64 images: 5 pixel formats (RGBA, NRGBA at alpha 200, Gray, YCbCr 4:4:4, NRGBA with fully transparent pixels) x 4 rectangle placements x the content family (constants, every low-frequency cosine basis image at two amplitudes and rectified on black, two-basis sums, ramps, checkerboards, single bright/dark pixels on a grid, fixed noise); both implementations vs an independent float64 DCT-II of the documented luminance, margins 1e-11*L1 / 4e-5*L1 (+ measured conversion distance); repeated and pool-poisoned calls; placement invariance"},
 				{Name: "sizes-64", H: c19Sizes(0, 56, 72, 300), NoLevels: true, Isolate: true, SplitDepth: 1,
 					Rule: "every (w,h) in [56,72]^2, 64x[0,300], [0,300]x64 x {Gray, RGBA, YCbCr 4:2:0} x history {pristine, after a valid hash, poisoned pools}: error and zero hash unless exactly 64x64; following valid call unchanged"},
 				{Name: "nil-image", H: c19Nil, NoLevels: true, Isolate: true},
@@ -833,8 +845,8 @@ func init() {
 						Rule: "every (w,h) in [248,264]^2, 256x[0,300], [0,300]x256"})
 			} else {
 				sp = append(sp,
-					mc.Space{Name: "family-256", H: c19Family(1, []int{kGray, kYCbCr}, []int{0, 3}), NoLevels: true, Isolate: true, SplitDepth: 1,
-						Rule: "256x256 images: Gray and YCbCr, at the origin and as a sub-image, whole content family"},
+					mc.Space{Name: "family-256", H: c19Family(1, []int{kGray, kYCbCr, kNRGBAHoles}, []int{0, 3}), NoLevels: true, Isolate: true, SplitDepth: 1,
+						Rule: "256x256 images: Gray, YCbCr and NRGBA with transparent pixels, at the origin and as a sub-image, whole content family"},
 					mc.Space{Name: "sizes-256", H: c19Sizes(1, 254, 258, 64), NoLevels: true, Isolate: true, SplitDepth: 1,
 						Rule: "every (w,h) in [254,258]^2, 256x[0,64], [0,64]x256"})
 			}
